@@ -149,7 +149,7 @@ Theorem detect_by_extension q ext lang stem variant head ne rd :
   detect q (mk_file (stem ++ variant) head ne rd) = lang.
 Proof.
   intros Hin Hl Hs. destruct (ext_map_entry ext lang Hin) as (Hshape & _ & Hlk).
-  assert (Hv : ext_shape variant = true) by (rewrite <- ext_shape_lower, Hl; exact Hshape).
+  assert (Hv : ext_shape variant = true) by (apply ext_shape_of_lower; rewrite Hl; exact Hshape).
   unfold detect, ext_of. cbn [f_name]. rewrite ext_lowered_true.
   rewrite (py_suffix_app stem variant Hs Hv), Hl, Hlk. reflexivity.
 Qed.
@@ -203,12 +203,21 @@ Proof.
   - intro H. right. now apply IH.
 Qed.
 
+Definition ids_not_raw_b : bool := forallb (fun r => String.eqb (base_id (r_id r)) (r_id r)) rule_table.
+Lemma ids_not_raw_true : ids_not_raw_b = true.
+Proof. vm_compute. reflexivity. Qed.
+Lemma base_id_rule r : In r rule_table -> base_id (r_id r) = r_id r.
+Proof.
+  intro Hr. pose proof ids_not_raw_true as H. unfold ids_not_raw_b in H. rewrite forallb_forall in H.
+  now apply String.eqb_eq, H.
+Qed.
+
 Lemma atab_entry_fact t r k :
   atab_good t = true -> In r rule_table -> an t (r_id r) k <> [] ->
   key_ok r k = true /\ forall v, In v (an t (r_id r) k) -> in_registry (r_pkg r) (fst v) = true.
 Proof.
   intros G Hr Hne. apply an_entry in Hne. unfold atab_good in G. rewrite forallb_forall in G.
-  specialize (G _ Hne). unfold entry_good in G. cbn [fst snd] in G.
+  specialize (G _ Hne). unfold entry_good in G. cbn [fst snd] in G. rewrite (base_id_rule r Hr) in G.
   apply andb_true_iff in G as [_ G]. rewrite forallb_forall in G. specialize (G _ Hr).
   rewrite String.eqb_refl in G. cbn [negb orb] in G. apply andb_true_iff in G as [G1 G2].
   split; [exact G1|]. intros v Hv. rewrite forallb_forall in G2. exact (G2 _ Hv).
@@ -245,15 +254,25 @@ Proof.
 Qed.
 
 (* rule level: what the command's filter keeps of a rule's result is what the specification asks for *)
-Lemma rule_level cmd atoms t r l :
+Lemma inert_rule q f r l :
+  exemption_inert q f = true ->
+  q_name_exemption_ext_case q && negb (Bool.eqb (exempt r l (f_name f)) (exempt r l (canon_name (f_name f)))) = false.
+Proof.
+  unfold exemption_inert. intro H. apply orb_true_iff in H as [H|H].
+  - apply negb_true_iff in H. now rewrite H.
+  - apply String.eqb_eq in H. rewrite H, Bool.eqb_reflx. now rewrite andb_false_r.
+Qed.
+
+Lemma rule_level q cmd atoms t r l name :
   In (cmd, atoms) cli_filters -> atab_good t = true -> In r rule_table -> In l det_langs ->
-  filter (fun v => passes atoms (fst v)) (rule_result t r l)
+  q_name_exemption_ext_case q && negb (Bool.eqb (exempt r l name) (exempt r l (canon_name name))) = false ->
+  filter (fun v => passes atoms (fst v)) (rule_result q t r l name)
   = if allowed (r_pkg r) (lang_class l)
     then filter (fun v => owns cmd (r_pkg r) (fst v)) (an t (r_id r) (spec_key (r_pkg r) (lang_class l)))
     else [].
 Proof.
-  intros Hc G Hr Hl. pose proof (rule_lang_fact r l Hr Hl) as F. unfold rule_lang_ok in F.
-  apply andb_true_iff in F as [F1 F2]. unfold rule_result.
+  intros Hc G Hr Hl Hx. pose proof (rule_lang_fact r l Hr Hl) as F. unfold rule_lang_ok in F.
+  apply andb_true_iff in F as [F1 F2]. unfold rule_result. rewrite Hx.
   destruct (allowed (r_pkg r) (lang_class l)) eqn:A.
   - cbn [implb] in F2. apply andb_true_iff in F2 as [F2 _]. apply String.eqb_eq in F2. rewrite <- F2.
     destruct (guard r l) eqn:Gd.
@@ -267,26 +286,27 @@ Proof.
 Qed.
 
 Theorem run_cmd_spec q cmd c t f :
-  q_shebang_any_ext q = false ->
+  q_shebang_any_ext q = false -> exemption_inert q f = true ->
   is_command cmd = true -> atab_good t = true ->
   aborts c f (detect q f) = false ->
   run_cmd q cmd c t f = Ok (spec_out cmd t f).
 Proof.
-  intros Hq1 Hcmd G Hab. unfold run_cmd. rewrite Hab.
+  intros Hq1 Hin Hcmd G Hab. unfold run_cmd. rewrite Hab.
   destruct (command_has_filter cmd Hcmd) as [atoms Ha]. rewrite Ha. f_equal.
   unfold run_all, spec_out. rewrite filter_flat_map. apply flat_map_ext_in. intros r Hr.
   rewrite (detect_spec q f Hq1).
-  apply (rule_level cmd atoms t r (detect q f) (lookup_In _ _ _ Ha) G Hr (detect_in_det_langs q f)).
+  apply (rule_level q cmd atoms t r (detect q f) (f_name f) (lookup_In _ _ _ Ha) G Hr (detect_in_det_langs q f)).
+  now apply inert_rule.
 Qed.
 
 (* full strength: every quirk vector with the flag off, every command, file, oracle table and every
    configuration of the domain (all sections valid) *)
 Theorem run_cmd_exact q cmd c t f :
-  q_shebang_any_ext q = false ->
+  q_shebang_any_ext q = false -> exemption_inert q f = true ->
   is_command cmd = true -> atab_good t = true -> cfg_clean c = true ->
   run_cmd q cmd c t f = Ok (spec_out cmd t f).
 Proof.
-  intros Hq1 Hcmd G Ho. apply run_cmd_spec; try assumption. now apply no_abort_clean.
+  intros Hq1 Hin Hcmd G Ho. apply run_cmd_spec; try assumption. now apply no_abort_clean.
 Qed.
 
 (* ---- the faithful variant: the guard of the shebang fallback as found in the source (fix 2639201: `not ext and ...`)
@@ -297,29 +317,48 @@ Proof. reflexivity. Qed.
 Lemma detect_flag_irrelevant q f : detect q f = detect ideal f.
 Proof. unfold detect, ideal. cbn [q_shebang_any_ext]. rewrite shebang_guard_confined, andb_false_r. reflexivity. Qed.
 
-Lemma run_cmd_flag_irrelevant q cmd c t f : run_cmd q cmd c t f = run_cmd ideal cmd c t f.
-Proof. unfold run_cmd. now rewrite (detect_flag_irrelevant q f). Qed.
+Definition unshebang (q : quirks) : quirks := mk_quirks false (q_name_exemption_ext_case q).
+
+Lemma run_cmd_flag_irrelevant q cmd c t f : run_cmd q cmd c t f = run_cmd (unshebang q) cmd c t f.
+Proof. unfold run_cmd. rewrite (detect_flag_irrelevant q f), (detect_flag_irrelevant (unshebang q) f). reflexivity. Qed.
 
 Lemma detect_spec_faithful q f : spec_class f = lang_class (detect q f).
 Proof. rewrite detect_flag_irrelevant. now apply detect_spec. Qed.
 
+(* main theorem for the faithful model: no hypothesis on the shebang flag (the source confines the fallback);
+   the name-exemption flag must be inert (off, or a lower-case extension) *)
 Theorem run_cmd_exact_faithful q cmd c t f :
+  exemption_inert q f = true ->
   is_command cmd = true -> atab_good t = true -> cfg_clean c = true ->
   run_cmd q cmd c t f = Ok (spec_out cmd t f).
-Proof. intros. rewrite run_cmd_flag_irrelevant. now apply run_cmd_exact. Qed.
+Proof. intros Hin Hc G Ho. rewrite run_cmd_flag_irrelevant. apply run_cmd_exact; try assumption; try reflexivity; exact Hin. Qed.
+
+Theorem run_cmd_exact_flag_off q cmd c t f :
+  q_name_exemption_ext_case q = false ->
+  is_command cmd = true -> atab_good t = true -> cfg_clean c = true ->
+  run_cmd q cmd c t f = Ok (spec_out cmd t f).
+Proof. intros Hq. apply run_cmd_exact_faithful. unfold exemption_inert. now rewrite Hq. Qed.
+
+(* confinement of the listed defect: under ANY quirk vector the faithful model meets the specification on every
+   file whose extension is spelled in lower case *)
+Theorem run_cmd_partial_lowercase q cmd c t f :
+  String.eqb (canon_name (f_name f)) (f_name f) = true ->
+  is_command cmd = true -> atab_good t = true -> cfg_clean c = true ->
+  run_cmd q cmd c t f = Ok (spec_out cmd t f).
+Proof. intros Hl. apply run_cmd_exact_faithful. unfold exemption_inert. now rewrite Hl, orb_true_r. Qed.
 
 (* ================================================================== 5. corollaries named by the property *)
 
 (* only ids of the command's own linter are printed *)
 Theorem only_own_rules q cmd c t f vs v :
-  q_shebang_any_ext q = false -> is_command cmd = true -> atab_good t = true ->
+  q_shebang_any_ext q = false -> exemption_inert q f = true -> is_command cmd = true -> atab_good t = true ->
   run_cmd q cmd c t f = Ok vs -> In v vs ->
   exists r, In r rule_table /\ owns cmd (r_pkg r) (fst v) = true.
 Proof.
-  intros Hq Hcmd G Hrun Hv.
+  intros Hq Hin Hcmd G Hrun Hv.
   assert (Hab : aborts c f (detect q f) = false).
   { unfold run_cmd in Hrun. destruct (aborts c f (detect q f)); [discriminate|reflexivity]. }
-  rewrite (run_cmd_spec q cmd c t f Hq Hcmd G Hab) in Hrun. injection Hrun as <-.
+  rewrite (run_cmd_spec q cmd c t f Hq Hin Hcmd G Hab) in Hrun. injection Hrun as <-.
   unfold spec_out in Hv. apply in_flat_map in Hv as (r & Hr & Hv). exists r. split; [exact Hr|].
   destruct (allowed (r_pkg r) (spec_class f)); [|destruct Hv].
   apply filter_In in Hv as [_ Hv]. exact Hv.
@@ -335,34 +374,34 @@ Proof.
 Qed.
 
 Theorem unrecognised_yields_nothing q cmd c t f vs :
-  q_shebang_any_ext q = false -> is_command cmd = true -> atab_good t = true ->
+  q_shebang_any_ext q = false -> exemption_inert q f = true -> is_command cmd = true -> atab_good t = true ->
   spec_class f = LOther -> run_cmd q cmd c t f = Ok vs ->
   forall v, In v vs -> exists r, In r rule_table /\ lookup (r_pkg r) doc_langs = Some None.
 Proof.
-  intros Hq Hcmd G Hcl Hrun v Hv.
+  intros Hq Hin Hcmd G Hcl Hrun v Hv.
   assert (Hab : aborts c f (detect q f) = false).
   { unfold run_cmd in Hrun. destruct (aborts c f (detect q f)); [discriminate|reflexivity]. }
-  rewrite (run_cmd_spec q cmd c t f Hq Hcmd G Hab) in Hrun. injection Hrun as <-.
+  rewrite (run_cmd_spec q cmd c t f Hq Hin Hcmd G Hab) in Hrun. injection Hrun as <-.
   unfold spec_out in Hv. rewrite Hcl in Hv. apply in_flat_map in Hv as (r & Hr & Hv). exists r. split; [exact Hr|].
   unfold allowed in Hv. destruct (lookup (r_pkg r) doc_langs) as [[ls|]|]; [destruct Hv|reflexivity|destruct Hv].
 Qed.
 
 Theorem only_own_rules_faithful q cmd c t f vs v :
-  is_command cmd = true -> atab_good t = true ->
+  exemption_inert q f = true -> is_command cmd = true -> atab_good t = true ->
   run_cmd q cmd c t f = Ok vs -> In v vs ->
   exists r, In r rule_table /\ owns cmd (r_pkg r) (fst v) = true.
 Proof.
-  intros Hc G Hrun Hv. rewrite run_cmd_flag_irrelevant in Hrun.
-  now apply (only_own_rules ideal cmd c t f vs v).
+  intros Hin Hc G Hrun Hv. rewrite run_cmd_flag_irrelevant in Hrun.
+  now apply (only_own_rules (unshebang q) cmd c t f vs v).
 Qed.
 
 Theorem unrecognised_yields_nothing_faithful q cmd c t f vs :
-  is_command cmd = true -> atab_good t = true ->
+  exemption_inert q f = true -> is_command cmd = true -> atab_good t = true ->
   spec_class f = LOther -> run_cmd q cmd c t f = Ok vs ->
   forall v, In v vs -> exists r, In r rule_table /\ lookup (r_pkg r) doc_langs = Some None.
 Proof.
-  intros Hc G Hcl Hrun. rewrite run_cmd_flag_irrelevant in Hrun.
-  now apply (unrecognised_yields_nothing ideal cmd c t f vs).
+  intros Hin Hc G Hcl Hrun. rewrite run_cmd_flag_irrelevant in Hrun.
+  now apply (unrecognised_yields_nothing (unshebang q) cmd c t f vs).
 Qed.
 
 (* configuring other linters never changes a command's result: within the domain the configuration does not
@@ -385,32 +424,31 @@ Proof.
   symmetry. unfold aborts. apply existsb_exists. exists r. split; [exact Hr|]. now rewrite Hl, Hj.
 Qed.
 
-(* ================================================================== 6. confinement of the listed defect *)
+(* ================================================================== 6. name-based exemptions are language-independent facts *)
 
-(* the shebang flag matters only for a non-extensionless, unmapped name whose first line is a python shebang *)
-Definition shebang_benign (f : file) : bool :=
-  String.eqb (py_suffix (f_name f)) ""
-  || match lookup (ext_of (f_name f)) extension_map with Some _ => true | None => false end
-  || negb (f_nonempty f && f_readable f && is_shebang (first_line (f_head f))).
+Lemma length_app a b : String.length (a ++ b)%string = String.length a + String.length b.
+Proof. induction a as [|c t IH]; [reflexivity|]. change ((String c t ++ b)%string) with (String c (t ++ b)%string). cbn [String.length]. now rewrite IH. Qed.
 
-Lemma detect_benign q f : shebang_benign f = true -> detect q f = detect ideal f.
+Lemma take_app a b : take (String.length a) (a ++ b)%string = a.
+Proof. induction a as [|c t IH]; [destruct b; reflexivity|]. change ((String c t ++ b)%string) with (String c (t ++ b)%string). cbn [String.length take]. now rewrite IH. Qed.
+
+(* the canonical name of  stem ++ variant  is  stem ++ lower variant *)
+Lemma canon_name_app stem v :
+  stem <> EmptyString -> ext_shape v = true -> canon_name (stem ++ v)%string = (stem ++ lower v)%string.
 Proof.
-  unfold shebang_benign, detect, ideal. cbn [q_shebang_any_ext].
-  destruct (lookup (ext_of (f_name f)) extension_map); [reflexivity|].
-  destruct (String.eqb (py_suffix (f_name f)) ""); [now rewrite !orb_true_r|].
-  cbn [orb andb]. intro H. rewrite orb_false_r.
-  destruct (q_shebang_any_ext q && shebang_guard_any_ext); [|reflexivity]. cbn [orb andb].
-  rewrite <- !andb_assoc. rewrite <- andb_assoc in H. apply negb_true_iff in H. now rewrite H.
+  intros Hs Hv. unfold canon_name. rewrite (py_suffix_app stem v Hs Hv), length_app.
+  replace (String.length stem + String.length v - String.length v) with (String.length stem) by lia.
+  now rewrite take_app.
 Qed.
 
-(* the faithful model (any quirk vector, in particular the actual one) meets the specification on every
-   input outside the defect class *)
-Theorem run_cmd_partial q cmd c t f :
-  is_command cmd = true -> atab_good t = true -> cfg_clean c = true -> shebang_benign f = true ->
-  run_cmd q cmd c t f = Ok (spec_out cmd t f).
-Proof.
-  intros Hcmd G Hc Hb.
-  assert (E : run_cmd q cmd c t f = run_cmd ideal cmd c t f).
-  { unfold run_cmd. rewrite (detect_benign q f Hb). reflexivity. }
-  rewrite E. apply run_cmd_spec; try assumption; [reflexivity|]. now apply no_abort_clean.
-Qed.
+(* with the flag off every exemption predicate is evaluated on the canonical name, hence gives the same answer for
+   every case variant of the extension: `test_x.PY` is a test file exactly when `test_x.py` is *)
+Theorem exempt_case_independent r l stem v1 v2 :
+  stem <> EmptyString -> ext_shape v1 = true -> ext_shape v2 = true -> lower v1 = lower v2 ->
+  exempt r l (canon_name (stem ++ v1)) = exempt r l (canon_name (stem ++ v2)).
+Proof. intros Hs H1 H2 E. now rewrite (canon_name_app stem v1 Hs H1), (canon_name_app stem v2 Hs H2), E. Qed.
+
+Theorem rule_result_case_independent q t r l stem v1 v2 :
+  q_name_exemption_ext_case q = false ->
+  rule_result q t r l (stem ++ v1) = rule_result q t r l (stem ++ v2).
+Proof. intro Hq. unfold rule_result. now rewrite Hq. Qed.
